@@ -168,7 +168,7 @@ def mk_ite(c: Term, a: Term, b: Term) -> Term:
 
 
 TAGS = frozenset(
-    "const sym fld attr new call xcall add mul neg div bin cmp not and or truthy ite virt fstr tuple list sub raise unk bound star lambda".split()
+    "const sym fld attr new call xcall add mul neg div bin cmp not and or truthy ite virt fstr tuple list sub raise unk bound star lambda old proj concat".split()
 )
 
 
@@ -188,7 +188,7 @@ def leaves(t: Any):
     """Maximal access paths / opaque values a term depends on (fld, sym, attr, call, xcall, virt, sub, unk), not descended into."""
     if isinstance(t, tuple):
         if t and isinstance(t[0], str) and t[0] in TAGS:
-            if t[0] in ("fld", "sym", "attr", "call", "xcall", "virt", "sub", "unk", "new", "bound"):
+            if t[0] in ("fld", "sym", "attr", "call", "xcall", "virt", "sub", "unk", "new", "bound", "old", "proj"):
                 yield t
                 return
             if t[0] == "const":
@@ -255,6 +255,12 @@ def show(t: Any) -> str:
         return "(" + ", ".join(show(x) for x in t[1]) + ")"
     if k == "sub":
         return f"{show(t[1])}[{show(t[2])}]"
+    if k == "concat":
+        return "(" + " ++ ".join(show(x) for x in t[1]) + ")"
+    if k == "old":
+        return f"old{t[3] if len(t) > 3 and t[3] else ''}({show(t[1])}[{show(t[2])}])"
+    if k == "proj":
+        return f"{show(t[2])}#{t[1]}"
     if k == "raise":
         return "<raise>"
     if k == "unk":
@@ -379,6 +385,17 @@ class Norm:
                     if isinstance(node, ast.AnnAssign) and isinstance(node.target, ast.Attribute) and node.target.attr == attr:
                         if isinstance(node.target.value, ast.Name) and node.target.value.id == "self":
                             ty = ann_to_type(self.prog, ci.module, node.annotation, ci)
+                            break
+                if ty != ANY:
+                    break
+        if ty == ANY:
+            self._field_types[key] = ANY  # recursion guard
+            for fi in ci.methods.values():
+                for node in ast.walk(fi.node):
+                    if isinstance(node, ast.Assign) and len(node.targets) == 1 and isinstance(node.targets[0], ast.Attribute) and node.targets[0].attr == attr:
+                        tgt = node.targets[0]
+                        if isinstance(tgt.value, ast.Name) and tgt.value.id == "self":
+                            _, ty = self.eval(node.value, self.ctx_for(fi, subst_locals=False))
                             break
                 if ty != ANY:
                     break
@@ -557,6 +574,10 @@ class Norm:
         ci = class_of(self.prog, bty)
         if ci is None:
             return ("attr", base, name), self._ext_attr_type(bty, name)
+        if base[0] == "new" and (ci.is_dataclass() or ci.is_namedtuple()) and name in dict(base[2]):
+            # field of a value constructed right here: Account(exchange=X, ...).exchange == X
+            fty = dict((n, a) for n, a in ci.dataclass_fields()).get(name)
+            return dict(base[2])[name], ann_to_type(self.prog, ci.module, fty, ci)
         # private / protected field on self within the defining class (name mangling)
         if name.startswith("__") and not name.endswith("__"):
             owner = ctx.cls if ctx.cls is not None else ci
@@ -708,6 +729,9 @@ class Norm:
         if op is ast.Add:
             if (lt and lt[0] == "prim" and lt[1] == "str") or l[0] == "fstr" or r[0] == "fstr":
                 return ("fstr", (l, r)), ("prim", "str")
+            if self._is_seq(l, lt) or self._is_seq(r, rt):
+                parts = (list(l[1]) if l[0] == "concat" else [l]) + (list(r[1]) if r[0] == "concat" else [r])
+                return ("concat", tuple(parts)), (lt if lt != ANY else rt)
             return mk_add([l, r]), ty
         if op is ast.Sub:
             if self._is_dt(lt) and self._is_dt(rt):
@@ -718,6 +742,13 @@ class Norm:
         if op is ast.Div:
             return ("div", l, r), ty
         return ("bin", type(node.op).__name__, l, r), ty
+
+    @staticmethod
+    def _is_seq(t: Term, ty: Type) -> bool:
+        """List-valued operand: + is concatenation (order matters), not commutative addition."""
+        if ty and ty[0] in ("list", "tuple"):
+            return True
+        return t[0] in ("list", "concat") or (t[0] == "xcall" and t[1] in ("list", "sorted", "tuple") and t[2] is None)
 
     @staticmethod
     def _is_dt(ty: Type) -> bool:
